@@ -189,11 +189,12 @@ func Concretise(g GenCase, rng *rand.Rand) (Case, bool) {
 		case "rejected":
 			switch st.AType {
 			case "jwt":
-				st.Shape = pick(rng, "badsig", "wrongiss", "expired", "hs256")
+				st.Shape = pick(rng, "badsig", "wrongiss", "expired", "hs256", "noprofile")
 			case "oauth2_introspection":
-				st.Shape = pick(rng, "inactive", "wrongiss")
+				st.Shape = pick(rng, "inactive", "wrongiss", "noprofile")
 			default:
-				st.Shape = "401"
+				// "noprofile": credentials the remote system knows, but no subject can be built from what it says
+				st.Shape = pick(rng, "401", "401", "noprofile")
 			}
 		}
 
